@@ -124,6 +124,7 @@ def _(c):
     c.check_raises = True
     c.raise_props = ("C16",)  # no exception class may leave the function (LinAlgError from GP.fit is caught on every path)
     c.unbound_checks = True  # reading a local that is unbound on the path raises UnboundLocalError (res after ten failures)
+    c.shape_checks = True  # np.logical_or of two masks of different lengths raises inside NumPy (broadcast error)
     c.loop(0, invariants={
         "c16_every_pass_consumed_a_failure": "ghost.fault_budget == old(ghost.fault_budget) - i_try and ghost.fault_budget >= 0",
         "c16_training_set_stays_consistent": "rows(Y) == rows(X) and implies(not isnone(s2), rows(s2) == rows(X))",
